@@ -312,3 +312,140 @@ func samePkgReach(p *Prog, fn *ssa.Function) []*ssa.Function {
 	sort.Slice(out, func(i, j int) bool { return FuncKey(out[i]) < FuncKey(out[j]) })
 	return out
 }
+
+// ---- printf wrappers: module functions that hand (format, args...) on to fmt.Sprintf are treated like fmt.Sprintf by
+// every rule that looks for templates, so that `lines.addf("%s = [ %s|", a, b)` is the same template site as
+// `lines = append(lines, fmt.Sprintf("%s = [ %s|", a, b))`.
+
+var loadedProgs []*Prog
+
+var printfWrapperMemo = map[*types.Func]int{}
+
+// printfWrapperIndex: fn is fmt.Sprintf (index 0) or a module function with parameters (..., format string, args ...any)
+// whose body calls fmt.Sprintf (or another such function) with exactly (format, args...); returns the index of the format
+// parameter among the signature's parameters (the receiver is not counted).
+func printfWrapperIndex(fn *types.Func) (int, bool) {
+	return printfWrapperIndexDepth(fn, 0)
+}
+
+func printfWrapperIndexDepth(fn *types.Func, depth int) (int, bool) {
+	if fn == nil {
+		return 0, false
+	}
+	if funcFullName(fn) == "fmt.Sprintf" {
+		return 0, true
+	}
+	if v, ok := printfWrapperMemo[fn]; ok {
+		return v, v >= 0
+	}
+	printfWrapperMemo[fn] = -1
+	sig, ok := fn.Type().(*types.Signature)
+	if !ok || !sig.Variadic() || sig.Params().Len() < 2 || depth > 3 {
+		return 0, false
+	}
+	fi := sig.Params().Len() - 2
+	if !isStringType(sig.Params().At(fi).Type()) {
+		return 0, false
+	}
+	for _, p := range loadedProgs {
+		fd, pk := p.findDecl(fn)
+		if fd == nil || fd.Body == nil {
+			continue
+		}
+		var names []*ast.Ident
+		for _, f := range fd.Type.Params.List {
+			names = append(names, f.Names...)
+		}
+		if len(names) != sig.Params().Len() {
+			return 0, false
+		}
+		fobj, vobj := pk.TypesInfo.Defs[names[fi]], pk.TypesInfo.Defs[names[fi+1]]
+		found := false
+		ast.Inspect(fd.Body, func(n ast.Node) bool {
+			call, ok := n.(*ast.CallExpr)
+			if !ok || found || !call.Ellipsis.IsValid() {
+				return true
+			}
+			callee, _ := calleeOf(pk.TypesInfo, call).(*types.Func)
+			k, ok := printfWrapperIndexDepth(callee, depth+1)
+			if !ok || len(call.Args) != k+2 {
+				return true
+			}
+			a0, ok0 := ast.Unparen(call.Args[k]).(*ast.Ident)
+			a1, ok1 := ast.Unparen(call.Args[k+1]).(*ast.Ident)
+			if ok0 && ok1 && pk.TypesInfo.Uses[a0] == fobj && pk.TypesInfo.Uses[a1] == vobj {
+				found = true
+			}
+			return true
+		})
+		if found {
+			printfWrapperMemo[fn] = fi
+			return fi, true
+		}
+		return 0, false
+	}
+	return 0, false
+}
+
+// normSprintf: when call is fmt.Sprintf or a printf wrapper, a view of it whose Args are [format, operands...].
+func normSprintf(info *types.Info, call *ast.CallExpr) (*ast.CallExpr, bool) {
+	fn, _ := calleeOf(info, call).(*types.Func)
+	k, ok := printfWrapperIndex(fn)
+	if !ok || len(call.Args) <= k || call.Ellipsis.IsValid() && k > 0 {
+		return nil, false
+	}
+	if k == 0 {
+		return call, true
+	}
+	cp := *call
+	cp.Args = call.Args[k:]
+	return &cp, true
+}
+
+// ssaSprintf: when the call is fmt.Sprintf or a printf wrapper, its format operand and its packed operand slice (nil
+// when there is none).  forwarding: the call sits inside a wrapper and merely hands the wrapper's own parameters on.
+func ssaSprintf(call ssa.CallInstruction) (format ssa.Value, packed ssa.Value, forwarding bool, ok bool) {
+	cc := call.Common()
+	var fn *types.Func
+	if callee := cc.StaticCallee(); callee != nil {
+		if callee.Origin() != nil {
+			callee = callee.Origin()
+		}
+		fn, _ = callee.Object().(*types.Func)
+	}
+	if fn == nil {
+		fn, _ = ssaCalleeObj(call).(*types.Func)
+	}
+	k, isW := printfWrapperIndex(fn)
+	if !isW {
+		return nil, nil, false, false
+	}
+	if sig, _ := fn.Type().(*types.Signature); sig != nil && sig.Recv() != nil && !cc.IsInvoke() {
+		k++
+	}
+	if len(cc.Args) <= k {
+		return nil, nil, false, false
+	}
+	format = cc.Args[k]
+	if len(cc.Args) > k+1 {
+		packed = cc.Args[k+1]
+	}
+	if prm, isP := format.(*ssa.Parameter); isP && call.Parent() != nil {
+		if pf, _ := call.Parent().Object().(*types.Func); pf != nil {
+			if _, isWrapper := printfWrapperIndex(pf); isWrapper && funcFullName(pf) != "fmt.Sprintf" {
+				_ = prm
+				forwarding = true
+			}
+		}
+	}
+	return format, packed, forwarding, true
+}
+
+func isSprintfLike(call ssa.CallInstruction) bool {
+	_, _, _, ok := ssaSprintf(call)
+	return ok
+}
+
+func sortFuncs(fs []*ssa.Function) {
+	sort.Slice(fs, func(i, j int) bool { return FuncKey(fs[i]) < FuncKey(fs[j]) })
+}
